@@ -655,11 +655,45 @@ class ChmSel(Selection):
         else:
             return ChmSel(chm)
 
+    # Index levels are transparent to selections: `check` and `get_subselection`
+    # look through `Indexed` (and through `Or` / `Switch`, which may hide one),
+    # so that the static part of every address of the choice map is selected.
+
+    @staticmethod
+    def _has_value(chm: "ChoiceMap") -> bool:
+        match chm:
+            case Indexed(c, _):
+                return ChmSel._has_value(c)
+            case Or(c1, c2):
+                return ChmSel._has_value(c1) or ChmSel._has_value(c2)
+            case Switch(_, chms):
+                return any(ChmSel._has_value(c) for c in chms)
+            case _:
+                return chm.has_value()
+
+    @staticmethod
+    def _inner_map(chm: "ChoiceMap", addr: StaticAddressComponent) -> "ChoiceMap":
+        match chm:
+            case Indexed(c, _):
+                return ChmSel._inner_map(c, addr)
+            case Or(c1, c2):
+                s1, s2 = ChmSel._inner_map(c1, addr), ChmSel._inner_map(c2, addr)
+                if s1.static_is_empty():
+                    return s2
+                return s1 if s2.static_is_empty() else Or(s1, s2)
+            case Switch(idx, chms):
+                subs = [ChmSel._inner_map(c, addr) for c in chms]
+                if all(sub.static_is_empty() for sub in subs):
+                    return ChoiceMap.empty()
+                return Switch(idx, subs)
+            case _:
+                return chm.get_inner_map(addr)
+
     def check(self) -> bool:
-        return self.c.has_value()
+        return ChmSel._has_value(self.c)
 
     def get_subselection(self, addr: StaticAddressComponent) -> Selection:
-        submap = self.c.get_inner_map(addr)
+        submap = ChmSel._inner_map(self.c, addr)
         return submap.get_selection()
 
 
